@@ -722,8 +722,8 @@ fn plan_long_terms(rng: &mut Rng) -> PlanResult {
             b.bytes(2, w.as_bytes());
         }
         if rng.chance(2, 3) {
-            // json text tokens up to 65 526 bytes here; 65 527..65 530 are the `jsonlong` stream
-            let w = gen(rng, 65_526);
+            // json text tokens: those longer than JSON_MAX_TOKEN_LEN (65 526) are dropped
+            let w = gen(rng, usize::MAX);
             let w2 = gen(rng, 300);
             let key = rng.pick(&["a", "a.b", "k"]).to_string();
             b.json(3, &J::Obj(vec![(key, J::Arr(vec![J::Str(w), J::Str(w2)]))]));
@@ -790,8 +790,9 @@ fn main_case(thorough: bool) -> impl Fn(u64, &mut Rng, &mut Report) + Sync {
     }
 }
 
-/// JSON text tokens of 65 527..65 530 bytes: allowed by MAX_TOKEN_LEN, but field id + path id +
-/// type byte + token exceeds the 65 535-byte key limit of the in-memory term table.
+/// JSON text tokens around the key limit: field id + path id + type byte + token must fit the
+/// 65 535-byte key of the in-memory term table, so tokens longer than JSON_MAX_TOKEN_LEN are
+/// dropped (they used to be cut silently, which keeps its own signature here).
 fn jsonlong_case(_case: u64, rng: &mut Rng, rep: &mut Report) {
     let tok = *rng.pick(&[Tok::Raw, Tok::White]);
     let (o, dots) = (ropt(rng), rng.bool());
@@ -805,11 +806,19 @@ fn jsonlong_case(_case: u64, rng: &mut Rng, rep: &mut Report) {
     };
     let n = rng.urange(1, 4);
     let mut lens = vec![];
+    // keys the dictionary would hold if over-long tokens were cut at the key limit instead of
+    // being dropped (the repaired defect): "a" \0 's' token[..JSON_MAX_TOKEN_LEN]
+    let mut cut_extra: Vec<Vec<u8>> = vec![];
     for _ in 0..n {
-        let len = *rng.pick(&[65_526usize, 65_527, 65_528, 65_529, 65_530]);
+        let len = *rng.pick(&[65_525usize, 65_526, 65_527, 65_528, 65_529, 65_530]);
         lens.push(len);
         let mut w = "m".repeat(len - 1);
         w.push(*rng.pick(&['0', '1']));
+        if len > JSON_MAX_TOKEN_LEN {
+            let mut k = b"a\0s".to_vec();
+            k.extend_from_slice(&w.as_bytes()[..JSON_MAX_TOKEN_LEN]);
+            cut_extra.push(k);
+        }
         b.json(0, &J::Obj(vec![("a".into(), J::Str(w)), ("n".into(), J::I(1))]));
         if let Err(e) = b.finish_doc() {
             rep.violation("api-error:add_document", json!(e));
@@ -827,7 +836,7 @@ fn jsonlong_case(_case: u64, rng: &mut Rng, rep: &mut Report) {
     for l in &lens {
         rep.observe("json_long_token_len", l.to_string());
     }
-    // does the dictionary hold the model's keys, or the keys cut at the arena key limit?
+    // does the dictionary hold the model's keys, or also the over-long tokens cut at the key limit?
     let keys: Vec<Vec<u8>> = (|| {
         let reader = built.index.reader().ok()?;
         let searcher = reader.searcher();
@@ -843,19 +852,9 @@ fn jsonlong_case(_case: u64, rng: &mut Rng, rep: &mut Report) {
     .unwrap_or_default();
     let model_keys: Vec<&Vec<u8>> = built.models[0].terms.keys().collect();
     let same = keys.len() == model_keys.len() && keys.iter().zip(model_keys.iter()).all(|(a, b)| a == *b);
-    if !same {
-        // in-memory key = field id (4) + path id (4) + type (1) + token, cut at 65 535 bytes;
-        // dictionary key = "a" \0 's' token  => token cut at 65 526 bytes
-        let mut cut: Vec<Vec<u8>> = model_keys
-            .iter()
-            .map(|k| {
-                let mut k = (*k).clone();
-                if k.len() > 3 && k[2] == b's' {
-                    k.truncate(3 + 65_526);
-                }
-                k
-            })
-            .collect();
+    if !same && !cut_extra.is_empty() {
+        let mut cut: Vec<Vec<u8>> = model_keys.iter().map(|k| (*k).clone()).collect();
+        cut.extend(cut_extra.iter().cloned());
         cut.sort();
         cut.dedup();
         if cut == keys {
@@ -863,7 +862,7 @@ fn jsonlong_case(_case: u64, rng: &mut Rng, rep: &mut Report) {
             rep.nontrivial(format!("jsonlong:{}", lens.iter().max().unwrap()));
             rep.violation(
                 "json:text-token-within-MAX_TOKEN_LEN-silently-truncated-at-arena-key-limit",
-                json!({"token_lens": lens, "tokenizer": tok.name(),
+                json!({"token_lens": lens, "tokenizer": tok.name(), "longest_json_token_that_fits_the_key": JSON_MAX_TOKEN_LEN,
                        "dictionary_keys": keys.iter().map(|k| show(k)).collect::<Vec<_>>(),
                        "expected_keys": model_keys.iter().map(|k| show(k)).collect::<Vec<_>>()}),
             );
